@@ -856,6 +856,13 @@ func verifyAttempt(payment *MPPayment, attempt *HTLCAttemptInfo) error {
 		return ErrValueMismatch
 	}
 
+	// A shard has to carry a part of the payment. One that delivers
+	// nothing would pass the amount check below no matter how much is
+	// already in flight, and still be sent out as an HTLC of its own.
+	if (isBlinded || mpp != nil) && amt == 0 {
+		return ErrZeroAmountShard
+	}
+
 	// Ensure we aren't sending more than the total payment amount.
 	sentAmt, _ := payment.SentAmt()
 	attempted := addMsatSaturating(sentAmt, amt)
